@@ -140,8 +140,8 @@ def handleIO (op : String) (args0 : List String) : IO (Option String) := do
   let s := w.sys
   match op, args with
   | "init", opts =>
-    let seed := opts.contains "seed=1"
-    if !(opts.all fun o => o == "seed=1" || o == "seed=0") then return none
+    let seed := if opts.contains "seed=1" then 1 else if opts.contains "seed=2" then 2 else 0
+    if !(opts.all fun o => o == "seed=1" || o == "seed=0" || o == "seed=2") then return none
     wref.set { sys := initSys seed, started := true }
     return some (← render "ok" [] [])
   | "append", toks =>
